@@ -12,7 +12,7 @@ namespace QbVerif.LogFormat
 @[simp] theorem repaired_d8b : Variant.repaired.d8b = true := rfl
 @[simp] theorem repaired_d9c : Variant.repaired.d9c = true := rfl
 @[simp] theorem repaired_d9d : Variant.repaired.d9d = true := rfl
-@[simp] theorem repaired_d9e : Variant.repaired.d9e = true := rfl
+@[simp] theorem repaired_d9e : Variant.repaired.d9e = false := rfl
 
 /-! ### access log -/
 
@@ -24,6 +24,17 @@ namespace QbVerif.LogFormat
 @[simp] theorem Mem.read_cap (m : Mem) (i : Int) : (m.read i).cap = m.cap := rfl
 @[simp] theorem Mem.write_cap (m : Mem) (i : Int) (v : Nat) : (m.write i v).cap = m.cap := by
   unfold Mem.write Mem.cap; split <;> simp
+
+@[simp] theorem Mem.write_cuts (m : Mem) (i : Int) (v : Nat) : (m.write i v).cuts = m.cuts := rfl
+@[simp] theorem Mem.read_cuts (m : Mem) (i : Int) : (m.read i).cuts = m.cuts := rfl
+
+@[simp] theorem Mem.writeAll_cuts (m : Mem) (i : Int) (vs : List Nat) : (m.writeAll i vs).cuts = m.cuts := by
+  induction vs generalizing m i with
+  | nil => rfl
+  | cons v vs ih => simp [Mem.writeAll, ih]
+
+/-- every `_strcpy_cutoff` call logged on this buffer had room for a byte and the terminator -/
+def CutsOk (m : Mem) : Prop := ∀ b ∈ m.cuts, 2 ≤ b
 
 @[simp] theorem Mem.writeAll_rd (m : Mem) (i : Int) (vs : List Nat) : (m.writeAll i vs).rd = m.rd := by
   induction vs generalizing m i with
@@ -173,6 +184,13 @@ theorem Mem.text_isSome_of_nul (m : Mem) (k : Nat) (h : m.data[k]? = some 0) :
   | none => rw [ht] at this; simp at this
   | some t => exact ⟨t, ht, cstr_length_le ht k hk⟩
 
+/-- the statements after the loop do not call `_strcpy_cutoff` -/
+theorem finishLine_cuts (v : Variant) (M : Nat) (ell : Bool) (idx : Nat) (m : Mem) :
+    (finishLine v M ell idx m).cuts = m.cuts := by
+  unfold finishLine ellipsisMark terminate
+  repeat' split
+  all_goals simp
+
 /-! ### `size_t` subtraction without wrap -/
 
 theorem subSZ_of_le {a b : Nat} (h : b ≤ a) : subSZ a b = a - b := by simp [subSZ, h]
@@ -218,97 +236,112 @@ theorem cutoffAt_bounds (m : Mem) (v : Variant) (idx : Nat) (src : Bytes) (cutof
     (m.cutoffAt v idx src cutoff ralign bufLen).2 ≤ bufLen - 1 ∧
     (m.cutoffAt v idx src cutoff ralign bufLen).1.rd = m.rd ∧
     (m.cutoffAt v idx src cutoff ralign bufLen).1.cap = m.cap ∧
+    (m.cutoffAt v idx src cutoff ralign bufLen).1.cuts = bufLen :: m.cuts ∧
     ∀ B : Int, WrIn m B → (idx : Int) + bufLen ≤ B →
       WrIn (m.cutoffAt v idx src cutoff ralign bufLen).1 B := by
   obtain ⟨t, ht, hl⟩ := strcpyCutoff_some v src cutoff ralign bufLen h2
   unfold Mem.cutoffAt
   rw [ht]
-  refine ⟨by simp only []; omega, by simp, by simp, ?_⟩
+  refine ⟨by simp only []; omega, by simp, by rw [Mem.writeAll_cap]; rfl, by simp, ?_⟩
   intro B hB hle
-  apply hB.writeAll _ (by omega)
+  have hB' : WrIn ({ m with cuts := bufLen :: m.cuts } : Mem) B := hB
+  apply hB'.writeAll _ (by omega)
   simp; omega
 
-/-! ### the loops keep `idx ≤ max_line_length - 1` and write below `max_line_length` -/
+/-! ### the loops keep `idx ≤ max_line_length - 1`, write below `max_line_length`, and call
+`_strcpy_cutoff` with `buf_len ≥ 2` only -/
+
+theorem CutsOk.cons {m : Mem} {b : Nat} (h : CutsOk m) (hb : 2 ≤ b) (m' : Mem)
+    (hc : m'.cuts = b :: m.cuts) : CutsOk m' := by
+  intro x hx
+  rw [hc] at hx
+  rcases List.mem_cons.1 hx with hx | hx
+  · omega
+  · exact h x hx
 
 theorem fmtLoop_bounds (v : Variant) (fl : Fields) (M : Nat) (hM : 2 ≤ M) (B : Int) (hB : (M : Int) ≤ B) :
-    ∀ (items : List Item) (idx : Nat) (m : Mem), idx < M - 1 → WrIn m B →
+    ∀ (items : List Item) (idx : Nat) (m : Mem), idx < M - 1 → WrIn m B → CutsOk m →
       (fmtLoop v fl M items idx m).1 ≤ M - 1 ∧ WrIn (fmtLoop v fl M items idx m).2.1 B ∧
       (fmtLoop v fl M items idx m).2.1.rd = m.rd ∧ (fmtLoop v fl M items idx m).2.1.cap = m.cap ∧
-      (v.d9d = true → (fmtLoop v fl M items idx m).2.2 = false) := by
+      (v.d9d = true → (fmtLoop v fl M items idx m).2.2 = false) ∧
+      CutsOk (fmtLoop v fl M items idx m).2.1 := by
   intro items
   induction items with
-  | nil => intro idx m hi hw; simp [fmtLoop, hw]; omega
+  | nil => intro idx m hi hw hc; simp [fmtLoop, hw, hc]; omega
   | cons it rest ih =>
-    intro idx m hi hw
+    intro idx m hi hw hc
     have hs1 : subSZ M 1 = M - 1 := subSZ_of_le (by omega)
     cases it with
     | lit c =>
       simp only [fmtLoop, hs1]
       have hw' : WrIn (m.write idx c) B := hw.write c (by omega) (by omega)
       split
-      · exact ⟨by omega, hw', by simp, by simp, fun _ => rfl⟩
-      · have := ih (idx + 1) (m.write idx c) (by omega) hw'
+      · exact ⟨by omega, hw', by simp, by simp, fun _ => rfl, hc⟩
+      · have := ih (idx + 1) (m.write idx c) (by omega) hw' hc
         simpa using this
     | dir ralign digits ch =>
       have hsi : subSZ M idx = M - idx := subSZ_of_le (by omega)
-      obtain ⟨hlen, hrd, hcap, hwr⟩ :=
+      obtain ⟨hlen, hrd, hcap, hcuts, hwr⟩ :=
         cutoffAt_bounds m v idx (expansion fl ch) (cutoffOf digits) ralign (M - idx) (by omega)
       have hw' := hwr B hw (by omega)
+      have hc' := hc.cons (b := M - idx) (by omega) _ hcuts
       cases ch with
       | none =>
         simp only [fmtLoop, hs1, hsi]
         split
-        · exact ⟨by omega, hw', hrd, hcap, fun _ => rfl⟩
-        · exact ⟨by omega, hw', hrd, hcap, fun h => by simp [h]⟩
+        · exact ⟨by omega, hw', hrd, hcap, fun _ => rfl, hc'⟩
+        · exact ⟨by omega, hw', hrd, hcap, fun h => by simp [h], hc'⟩
       | some c =>
         simp only [fmtLoop, hs1, hsi]
         split
-        · exact ⟨by omega, hw', hrd, hcap, fun _ => rfl⟩
+        · exact ⟨by omega, hw', hrd, hcap, fun _ => rfl, hc'⟩
         · have := ih (idx + (m.cutoffAt v idx (expansion fl (some c)) (cutoffOf digits) ralign (M - idx)).2)
-            (m.cutoffAt v idx (expansion fl (some c)) (cutoffOf digits) ralign (M - idx)).1 (by omega) hw'
+            (m.cutoffAt v idx (expansion fl (some c)) (cutoffOf digits) ralign (M - idx)).1 (by omega) hw' hc'
           rw [hrd, hcap] at this
           exact this
 
 theorem staticLoop_bounds (v : Variant) (sf : SFields) (M : Nat) (hM : 2 ≤ M) (B : Int) (hB : (M : Int) ≤ B) :
-    ∀ (items : List Item) (idx : Nat) (m : Mem), idx < M - 1 → WrIn m B →
+    ∀ (items : List Item) (idx : Nat) (m : Mem), idx < M - 1 → WrIn m B → CutsOk m →
       (staticLoop v sf M items idx m).1 ≤ M - 1 ∧ WrIn (staticLoop v sf M items idx m).2.1 B ∧
       (staticLoop v sf M items idx m).2.1.rd = m.rd ∧ (staticLoop v sf M items idx m).2.1.cap = m.cap ∧
-      (v.d9d = true → (staticLoop v sf M items idx m).2.2 = false) := by
+      (v.d9d = true → (staticLoop v sf M items idx m).2.2 = false) ∧
+      CutsOk (staticLoop v sf M items idx m).2.1 := by
   intro items
   induction items with
-  | nil => intro idx m hi hw; simp [staticLoop, hw]; omega
+  | nil => intro idx m hi hw hc; simp [staticLoop, hw, hc]; omega
   | cons it rest ih =>
-    intro idx m hi hw
+    intro idx m hi hw hc
     have hs1 : subSZ M 1 = M - 1 := subSZ_of_le (by omega)
     cases it with
     | lit c =>
       simp only [staticLoop, hs1]
       have hw' : WrIn (m.write idx c) B := hw.write c (by omega) (by omega)
       split
-      · exact ⟨by omega, hw', by simp, by simp, fun _ => rfl⟩
-      · have := ih (idx + 1) (m.write idx c) (by omega) hw'
+      · exact ⟨by omega, hw', by simp, by simp, fun _ => rfl, hc⟩
+      · have := ih (idx + 1) (m.write idx c) (by omega) hw' hc
         simpa using this
     | dir ralign digits ch =>
       have hsi : subSZ M idx = M - idx := subSZ_of_le (by omega)
-      obtain ⟨hlen, hrd, hcap, hwr⟩ :=
+      obtain ⟨hlen, hrd, hcap, hcuts, hwr⟩ :=
         cutoffAt_bounds m v idx (staticArg sf ralign digits ch rest).1 (staticArg sf ralign digits ch rest).2.1
           (staticArg sf ralign digits ch rest).2.2 (M - idx) (by omega)
       have hw' := hwr B hw (by omega)
+      have hc' := hc.cons (b := M - idx) (by omega) _ hcuts
       cases ch with
       | none =>
         simp only [staticLoop, hs1, hsi]
         split
-        · exact ⟨by omega, hw', hrd, hcap, fun _ => rfl⟩
-        · exact ⟨by omega, hw', hrd, hcap, fun h => by simp [h]⟩
+        · exact ⟨by omega, hw', hrd, hcap, fun _ => rfl, hc'⟩
+        · exact ⟨by omega, hw', hrd, hcap, fun h => by simp [h], hc'⟩
       | some c =>
         simp only [staticLoop, hs1, hsi]
         split
-        · exact ⟨by omega, hw', hrd, hcap, fun _ => rfl⟩
+        · exact ⟨by omega, hw', hrd, hcap, fun _ => rfl, hc'⟩
         · have := ih (idx + (m.cutoffAt v idx (staticArg sf ralign digits (some c) rest).1
               (staticArg sf ralign digits (some c) rest).2.1 (staticArg sf ralign digits (some c) rest).2.2 (M - idx)).2)
             (m.cutoffAt v idx (staticArg sf ralign digits (some c) rest).1
               (staticArg sf ralign digits (some c) rest).2.1 (staticArg sf ralign digits (some c) rest).2.2 (M - idx)).1
-            (by omega) hw'
+            (by omega) hw' hc'
           rw [hrd, hcap] at this
           exact this
 
